@@ -410,7 +410,7 @@ def check_pin_histories(rec, idx, of, maxlen):
             if r["auth"] != (nwrong <= 10):
                 rec.violation("C20/PIN-LOCKOUT-BYPASS" if r["auth"] else "C20/correct-pin-refused-before-lockout", f"wrong^{nwrong} right: {r}", {"part": "pin", "history": ["wrong"] * nwrong + ["right"]}, monitor="counter-model")
         # deep lock-out families beyond the DFS depth
-        for fam in (["wrong"] * 11 + ["stale", "right"], ["stale"] * 11 + ["right"], ["wrong"] * 5 + ["right"] + ["wrong"] * 11 + ["right"], ["wrong"] * 10 + ["right", "right"] + ["wrong"] * 11 + ["right"]):
+        for fam in (["wrong"] * 11 + ["stale"] * 250 + ["right"], ["stale"] * 300 + ["right"], ["wrong"] * 11 + ["stale", "right"], ["stale"] * 11 + ["right"], ["wrong"] * 5 + ["right"] + ["wrong"] * 11 + ["right"], ["wrong"] * 10 + ["right", "right"] + ["wrong"] * 11 + ["right"]):
             app._failed_pin_auth.value = 0
             f = 0
             for k, kind in enumerate(fam):
